@@ -217,7 +217,7 @@ def targets(tier):
                ensures=[("effective-metaclass-typeddict-and-tuple-types-visited-iff-present", ens_tail)], raises=(), overrides=dict(OV, **{"mypy.nodes:SymbolTableNode.type": returns(TOpt(TObj(T.Type)), "member_type"), "mypy.nodes:TypeInfo.protocol_members": returns(TLList(TStr()), "protocol_members")}), field_types=FT, loops=loops,
                note="whole function at its normal exits, the loops under trivial invariants (their bodies are the per-iteration targets); the protocol-member clause is not under contract"),
         StaticCheck("indirect.visit_instance.nest", check_nest, note="loop nest, decided on the source"),
-    ] + targets_reset(tier)
+    ] + targets_reset(tier) + targets_patch(tier)
 
 
 # ---- the visitor is shared by all modules of a build: find_modules() must start from a clean state, or
@@ -266,3 +266,45 @@ def check_visitor_reset():
 
 def targets_reset(tier):
     return [StaticCheck("indirect.find_modules.reset", check_visitor_reset, note="every container the visitor's __init__ creates is re-created before find_modules starts visiting (source-level frame)")]
+
+
+# ---- State.patch_indirect_dependencies, one generic newly encountered module: it becomes a dependency of
+# priority PRI_INDIRECT exactly when it is a module of this build; nothing else is touched
+
+
+class FakeManagerP:
+    modules: dict
+
+
+def setup_patch(I):
+    import mypy.build as B
+
+    self = I.new_object(B.State)
+    dep = I.make(TStr(), "dep")
+    mgr = I.new_object(FakeManagerP)
+    known = I.ctx.choose(2, "module-of-this-build?")
+    mgr.fields["modules"] = SDict([(dep, SOpaque("tree"))]) if known else SDict([])
+    self.fields["manager"] = mgr
+    pr = I.make(TMap(TStr(), TInt()), "priorities")
+    self.fields["priorities"] = pr
+    return {"args": [], "locals": {"self": self, "dep": dep}, "self": self, "dep": dep, "known": known, "pr0": pr.t}
+
+
+def ens_patch(I, env, res):
+    import mypy.build as B
+
+    adds = [e for e in I.ctx.events if e[0] == "add_dependency"]
+    pr1 = I.getattr(env["self"], "priorities").t
+    ty = TMap(TStr(), TInt())
+    s, mk, accs = ty.parts()
+    if not env["known"]:
+        return z3.And(z3.BoolVal(not adds), pr1 == env["pr0"])
+    ok = len(adds) == 1 and adds[0][1] is env["dep"]
+    return z3.And(z3.BoolVal(ok), z3.Select(accs[0](pr1), env["dep"].t), z3.Select(accs[1](pr1), env["dep"].t) == B.PRI_INDIRECT)
+
+
+def targets_patch(tier):
+    ov = {"mypy.build:State.add_dependency": lambda I, a, k: (I.ctx.events.append(("add_dependency",) + tuple(a[1:])), NONE)[1]}
+    return [Target("indirect.patch_indirect_dependencies.entry", "mypy.build:State.patch_indirect_dependencies", setup_patch, loop_body=("for dep in sorted(encountered - existing_deps)", None),
+                   ensures=[("encountered-module-of-this-build-becomes-an-indirect-dependency", ens_patch)], raises=(), overrides=ov, field_types={},
+                   note="one generic encountered module that is not yet a dependency")]
